@@ -5,7 +5,8 @@
 (* back through the header cache or the source, disconnect_blocks to the   *)
 (* fork point, connect_blocks ascending, partial advance on a failed       *)
 (* fetch) and init::synchronize_listeners.  Any single source request may  *)
-(* fail or lie.  TLC checks that this algorithm refines SpvAbstract (the   *)
+(* fail or lie; a get_header answer may also be a correct header carrying a *)
+(* wrong accumulated chainwork or height (see "Lying answers").  TLC checks that this algorithm refines SpvAbstract (the   *)
 (* observable statement of the property) and keeps the client's private    *)
 (* tip equal to its listeners' tip after every poll, failed ones included. *)
 (***************************************************************************)
@@ -15,9 +16,11 @@ VARIABLES
   ctip,    \* SpvClient.chain_tip
   cache,   \* set of blocks whose headers are in the HeaderCache
   plan,    \* notifications the current operation still has to deliver
-  after    \* [ctip, cache, res, flag, ok] to install when the operation returns
+  after,   \* [ctip, cache, res, flag, ok] to install when the operation returns
+  lied     \* the lying get_header answers the source gave in the current / last poll (kept until
+           \* the source's tip moves: the script of every lying poll is emitted, see EmitScripts)
 
-cvars == <<avars, ctip, cache, plan, after>>
+cvars == <<avars, ctip, cache, plan, after, lied>>
 
 RECURSIVE PathUp(_, _)
 PathUp(a, b) == IF a = b THEN <<>> ELSE Append(PathUp(a, parent[b]), b)
@@ -47,6 +50,50 @@ Faults == {<<FH, FB>> \in (SUBSET Blocks) \X (SUBSET Blocks) :
              Cardinality(FH) <= 1 /\ Cardinality(FB) <= 1}
 
 -----------------------------------------------------------------------------
+(* Lying answers.  A source answer to get_header(b) is one of a class:      *)
+(*   honest | "over" d : right header, chainwork overstated by d            *)
+(*          | "under" d: right header, chainwork understated by d           *)
+(*          | "hup" / "hdn": right header, height one too high / too low     *)
+(* (PoW, hash and prev hash are right: validate() passes).  The client can   *)
+(* tell such a lie only by check_builds_on, i.e. when the header is compared *)
+(* with a parent / child header it has to FETCH; a header whose parent is in *)
+(* the HeaderCache (or that is not walked at all) is taken on trust, which   *)
+(* the property leaves to the source.  So the class is restricted to answers *)
+(* that are served and compared:                                            *)
+(*  - the answer for the source's tip, ranked better on its claimed work,    *)
+(*    not an ancestor of the client's tip and with its parent NOT cached     *)
+(*    (the cache holds what this client connected or start-up sync walked:  *)
+(*    a fork at least two blocks long, a client at least two blocks behind,  *)
+(*    a fork point the client never connected), or ranked worse on its       *)
+(*    claimed work (nothing is walked);                                      *)
+(*  - the answer for any other header that the walk fetches as a parent.     *)
+(* In all of them the unchanged algorithm notices the mismatch before the    *)
+(* first notification (or ranks the tip worse): no listener is called and    *)
+(* chain_tip / cache stay as they were.                                      *)
+LieKinds == {"over", "under", "hup", "hdn"}
+Lies == {{}} \cup {{[b |-> b, k |-> k, d |-> 1]} : b \in Blocks, k \in LieKinds \ {"hdn"}}
+             \cup {{[b |-> b, k |-> "hdn", d |-> 1]} : b \in {srcTip}}
+             \cup {{[b |-> b, k |-> "over", d |-> 2]} : b \in {srcTip}}
+OverD(b, L) == IF \E x \in L : x.b = b /\ x.k = "over"
+               THEN (CHOOSE x \in L : x.b = b /\ x.k = "over").d ELSE 0
+UnderD(b, L) == IF \E x \in L : x.b = b /\ x.k = "under"
+                THEN (CHOOSE x \in L : x.b = b /\ x.k = "under").d ELSE 0
+LiedOn(L) == {x.b : x \in L}
+\* the tip as ranked by poll_chain_tip on the chainwork the source claims for it
+ClaimedBetter(tip, cur, L) == ChainWork(tip) + OverD(tip, L) > ChainWork(cur) + UnderD(tip, L)
+LieWellFormed(x) ==
+  /\ x.k \in {"hup", "hdn"} => x.d = 1
+  /\ x.k = "hdn" => x.b # 0
+  /\ x.k = "under" => x.d = 1
+LieInClass(x, cur, c) ==
+  /\ LieWellFormed(x)
+  /\ srcTip # cur
+  /\ IF x.b = srcTip
+     THEN ClaimedBetter(srcTip, cur, {x})
+            => (~IsAncestor(srcTip, cur) /\ parent[srcTip] \notin c)
+     ELSE /\ ChainWork(srcTip) > ChainWork(cur)
+          /\ x.b \in NeedHdr(srcTip, cur) \ c
+
 NoClient == nb + 1   \* sentinel: no SpvClient exists yet (start-up sync still to run)
 
 CInit(n, listeners, sync) ==
@@ -58,15 +105,17 @@ CInit(n, listeners, sync) ==
   /\ phase = "idle" /\ startTip = ltip /\ faulted = FALSE
   /\ moved = [i \in 1..listeners |-> FALSE] /\ connd = [i \in 1..listeners |-> FALSE]
   /\ IF sync THEN ctip = NoClient ELSE (SameTips /\ ctip = ltip[1])
-  /\ cache = {} /\ plan = <<>>
+  /\ cache = {} /\ plan = <<>> /\ lied = {}
   /\ after = [ctip |-> ctip, cache |-> cache, res |-> "none", flag |-> FALSE, ok |-> TRUE]
 
-CSetTip(b) == SetTip(b) /\ UNCHANGED <<ctip, cache, plan, after>>
+CSetTip(b) == SetTip(b) /\ lied' = {} /\ UNCHANGED <<ctip, cache, plan, after>>
 
 (* poll_best_tip, first half: everything up to the first notification.     *)
-CPollBegin(FH, FB, bestFails) ==
-  LET f == (FH # {} \/ FB # {} \/ bestFails) IN
+CPollBegin(FH, FB, bestFails, L) ==
+  LET f == (FH # {} \/ FB # {} \/ bestFails \/ L # {}) IN
   /\ ctip \in Blocks
+  /\ L # {} => (FH = {} /\ FB = {} /\ ~bestFails /\ \A x \in L : LieInClass(x, ctip, cache))
+  /\ lied' = L
   /\ PollBegin(f)
   /\ SameTips
   /\ IF bestFails \/ (srcTip # ctip /\ srcTip \in FH)
@@ -75,10 +124,14 @@ CPollBegin(FH, FB, bestFails) ==
      ELSE IF srcTip = ctip
      THEN /\ plan' = <<>>
           /\ after' = [ctip |-> ctip, cache |-> cache, res |-> "common", flag |-> FALSE, ok |-> TRUE]
-     ELSE IF ChainWork(srcTip) <= ChainWork(ctip)
+     ELSE IF ~ClaimedBetter(srcTip, ctip, L)
      THEN /\ plan' = <<>>
           /\ after' = [ctip |-> ctip, cache |-> cache, res |-> "worse", flag |-> FALSE, ok |-> TRUE]
-     ELSE IF WalkFails(srcTip, ctip, FH, cache)
+     ELSE IF srcTip \in LiedOn(L)
+     THEN \* the tip's parent is fetched and the tip does not build on it: find_difference fails
+          /\ plan' = <<>>
+          /\ after' = [ctip |-> ctip, cache |-> cache, res |-> "better", flag |-> FALSE, ok |-> TRUE]
+     ELSE IF WalkFails(srcTip, ctip, FH \cup LiedOn(L), cache)
      THEN /\ plan' = <<>>
           /\ after' = [ctip |-> ctip, cache |-> cache, res |-> "better", flag |-> FALSE, ok |-> TRUE]
      ELSE
@@ -121,6 +174,7 @@ AllSyncBlocks == UNION {Range(PathUp(Fork(srcTip, ltip[k]), srcTip)) : k \in Lis
 CSyncBegin(FH, FB, bestFails) ==
   LET f == (FH # {} \/ FB # {} \/ bestFails) IN
   /\ ctip = NoClient
+  /\ lied' = {}
   /\ SyncBegin(f)
   /\ IF bestFails \/ srcTip \in FH
      THEN /\ plan' = <<>>
@@ -139,23 +193,23 @@ CNotify ==
   /\ LET n == Head(plan) IN
      IF n.t = "disc" THEN Disconnected(n.i, n.b) ELSE Connected(n.i, n.b, Height(n.b))
   /\ plan' = Tail(plan)
-  /\ UNCHANGED <<ctip, cache, after>>
+  /\ UNCHANGED <<ctip, cache, after, lied>>
 
 CPollEnd ==
   /\ phase = "polling" /\ plan = <<>>
   /\ PollEnd(after.res, after.flag)
   /\ ctip' = after.ctip /\ cache' = after.cache
-  /\ UNCHANGED <<plan, after>>
+  /\ UNCHANGED <<plan, after, lied>>
 
 CSyncEnd ==
   /\ phase = "syncing" /\ plan = <<>>
   /\ SyncEnd(after.ok, after.ctip)
   /\ ctip' = after.ctip /\ cache' = after.cache
-  /\ UNCHANGED <<plan, after>>
+  /\ UNCHANGED <<plan, after, lied>>
 
 CNext ==
   \/ \E b \in Blocks : CSetTip(b)
-  \/ \E ff \in Faults, bf \in BOOLEAN : CPollBegin(ff[1], ff[2], bf)
+  \/ \E ff \in Faults, bf \in BOOLEAN, L \in Lies : CPollBegin(ff[1], ff[2], bf, L)
   \/ \E ff \in Faults, bf \in BOOLEAN : CSyncBegin(ff[1], ff[2], bf)
   \/ CNotify
   \/ CPollEnd
